@@ -359,8 +359,13 @@ func (a *BinArtifact) ApplyBin(t *BNode, op, arg string, rng *rand.Rand, inner I
 		setWord(v & maxWord(w))
 	case "CountHuge":
 		v := maxWord(w)
-		if arg == "i32max" {
+		switch arg {
+		case "i32max":
 			v >>= 1
+		case "256m":
+			if v > 1<<28 {
+				v = 1 << 28
+			}
 		}
 		setWord(v)
 	case "EmptyBody":
